@@ -24,6 +24,7 @@ fn mkbox(x) { var b = Box.new(); b.f = x; return b; }
 fn mkinst(u) { var i = Inst.new(); i.a = [u, "a" + "x"]; i.b = (u, "b"); return i; }
 fn mkclo(x) { return || { return x; }; }
 fn getiter(v) { return v.iter; }
+fn rangeeq(u) { var a = u..(u + 3); var m = {a: [u]}; churn(1); return (a == u..(u + 3), m.has_key(u..(u + 3)), m.get(u..(u + 3))); }
 fn drain_twice(it) { var n = 0; for x in it { n = n + 1; } churn(1); for x in it { n = n + 100; } churn(1); try { it.next(); n = n + 1000; } catch e { n = n + 10; } return n; }
 fn setfirst(v, x) { v[0] = x; x = nil; churn(1); return [v[0], v.len()]; }
 fn getpush(v) { return v.push; }
@@ -195,6 +196,11 @@ ROOTS["capture_after_return_site_in_loop"] = ["fn r{g}() {{", "  var l = {H};", 
 # the value sits at the far end of a chain of 1500 nested vectors (deeper than any fixed marking depth one might pick)
 ROOTS["end_of_deep_chain"] = ["fn r{g}() {{", "  var l = {H};", "  for i in 0..1500 {{ l = [l]; }}", "  churn({n});",
                               "  for i in 0..1500 {{ l = l[0]; }}", "  return {P};", "}}", 'print(("ev", {g}, r{g}()));']
+# a loop-body variable captured by a closure, and the iteration then ends through `continue`: each iteration's variable must be
+# closed (given to its closure) before the next iteration reuses the slot
+ROOTS["capture_in_loop_body_left_by_continue"] = ["fn r{g}() {{", "  var fns = [];", "  for i in 0..3 {{", "    var l = {H};",
+                                                  "    fns.push(|| {{ return l; }});", "    if i >= 0 {{ continue; }}", "    fns.push(nil);", "  }}",
+                                                  "  churn({n});", "  var l = fns[1]();", "  return {P};", "}}", 'print(("ev", {g}, r{g}()));']
 GEN_ROOTS = sorted(ROOTS)
 
 # ---- operations that make the interpreter hold fresh objects mid-operation ({u} = unique number)
@@ -261,6 +267,8 @@ OPS = [
     "mksub2(Box).new().derives(Inst)",
     "mksub2(Inst).new().own()",
     "mksub(Box).new().own()",
+    # an equal range literal evaluated after allocations in between is == to the range held in a variable, and finds it as a key
+    "rangeeq({u})",
 ]
 # operations that fail: the error object is created while the operands are held only by the interpreter
 FAIL_OPS = [
@@ -310,6 +318,7 @@ MEMCHECK_EVERY = int(os.environ.get("VERIF_MEMCHECK_EVERY", "24"))      # explor
 
 
 OPS_EXPECT = {
+    "rangeeq({u})": lambda u: {"t": [{"b": True}, {"b": True}, _v(_n(u))]},
     "cap3a({u})()": lambda u: _v(_v(_n(u)), _v(_n(u + 2)), _v(_n(u + 1))),
     "cap3b({u})()": lambda u: _v(_v(_n(u + 2)), _v(_n(u)), _v(_n(u + 1))),
     "cap4({u})()": lambda u: _v(_v(_n(u + 2)), _v(_n(u)), _v(_v(_n(u + 1)), _v(_n(u + 3)))),
@@ -350,7 +359,9 @@ def gen_ir(seed):
             gadgets.append(["op", rng.below(len(OPS)), u, rng.choice(["global", "fn", "fiber"])])
         else:
             gadgets.append(["failop", rng.below(len(FAIL_OPS)), u])
-    return {"gadgets": gadgets, "reset": rng.chance(0.15)}
+    # reset sessions: the program after the reset is either compiled after it, or was compiled BEFORE it by the host (which kept
+    # the function) and is executed after it
+    return {"gadgets": gadgets, "reset": (rng.choice([True, "compiled"]) if rng.chance(0.15) else False)}
 
 
 def render_gadget(g, gi):
@@ -429,7 +440,9 @@ def programs(ir):
     """the scenario's program list: normally one program; with ir["reset"] the interpreter is reset (Vm::reset) after it and
     a second program then uses the core library, a re-imported module and fresh allocations"""
     progs = [{"kind": "snippet", "source": render(ir)}]
-    if ir.get("reset"):
+    if ir.get("reset") == "compiled":
+        progs += [{"kind": "compile", "source": AFTER_RESET}, {"kind": "reset"}, {"kind": "run", "slot": 0}]
+    elif ir.get("reset"):
         progs += [{"kind": "reset"}, {"kind": "snippet", "source": AFTER_RESET}]
     return progs
 
